@@ -625,6 +625,9 @@ type c08FrameValue struct {
 	// light: mutations of the encoding are parsed at 1-RTT only (except the type byte), also
 	// in the thorough tier (used for the 3-range ACK frames, the bulk of the lattice)
 	light bool
+	// mutHead > 0: only the first mutHead bytes of the encoding are mutated (values with a
+	// long data field; the data bytes themselves are not interpreted by the parser)
+	mutHead int
 	// reject: the value is outside a range the statement lists, every parser configuration
 	// has to reject its encoding (reason names the rule).
 	reject string
